@@ -40,7 +40,14 @@
 //! [a, a, a]` declares 768 B = the sector's verified space, b is never looked at, and the sector is
 //! extended past b's maximum term (at any age, keeping all of its QA power). The signature used
 //! for the classification is narrow: accepted declaration with a repeated id AND one of the
-//! sector/claim relations S1, S2, T4 broken; the trace is not judged further.
+//! sector/claim relations S1, S2, T4 broken; the trace is not judged further. (Repaired in /repo
+//! 1e0afeb; the actions stay in the alphabet as a regression guard.)
+//!
+//! Second finding, same mechanism one level up (id `KF-6` here, same treatment): one
+//! `ExtendSectorExpiration2` message may name the same sector in two declarations. The first lists
+//! the claims as maintained with a new expiration every claim allows (the term check uses *that*
+//! declaration's expiration); the second names the bare sector with a later expiration, finds the
+//! sector's claim space already recorded and extends it again without any term check.
 use crate::miner::*;
 use crate::util::*;
 use cid::Cid;
@@ -84,6 +91,9 @@ const CC_LIFE: i64 = 140;
 const TERM_MIN: i64 = 72;
 /// id under which the duplicate-claim-id defect is listed in known_findings.json (if it is)
 const KF_DUP: &str = "KF-4";
+/// id under which the one-sector-in-two-declarations defect is listed in known_findings.json (if it is)
+const KF_TWO: &str = "KF-6";
+const KF_TWO_TEXT: &str = "ExtendSectorExpiration2 accepts one message whose declarations name the same sector twice: the maintained claims are checked against the first declaration's new expiration only, a later declaration naming the sector without claims re-uses the recorded claim space and extends it past a maintained claim's maximum term without dropping it";
 const KF_DUP_TEXT: &str = "ExtendSectorExpiration2 accepts a declaration naming the same claim id more than once: the declared space adds up while another claim of the sector is not declared at all, so the sector is extended past that claim's maximum term without dropping it";
 
 #[derive(Clone, Copy, Debug, PartialEq, Eq)]
@@ -114,6 +124,9 @@ pub enum Act {
     /// `ExtendSectorExpiration2` for one sector; claims of the sector named in neither list are
     /// *omitted*; a claim may be named more than once
     Extend { sector: u64, maintain: Vec<u64>, drop: Vec<u64>, new_exp: i64 },
+    /// one `ExtendSectorExpiration2` message with two declarations (same deadline and partition)
+    /// that both name the sector: (maintain, drop, new expiration) each, in message order
+    ExtendTwice { sector: u64, first: (Vec<u64>, Vec<u64>, i64), second: (Vec<u64>, Vec<u64>, i64) },
     /// `VerifiedRegistry.ExtendClaimTerms` by the client
     ExtendTerm { claim: u64, term_max: i64 },
     /// claim extension paid with DataCap (transfer to the registry carrying a `ClaimExtensionRequest`)
@@ -551,15 +564,25 @@ fn replica_update(vm: &Vm, c: &Cast, sector: u64, dl: u64, part: u64, allocs: &[
 }
 
 fn extend2(vm: &Vm, c: &Cast, s: &SecSt, sector: u64, maintain: &[u64], drop: &[u64], new_exp: i64) -> Inv {
-    let plain = maintain.is_empty() && drop.is_empty();
+    extend_msg(vm, c, s, sector, &[(maintain.to_vec(), drop.to_vec(), new_exp)])
+}
+
+/// One `ExtendSectorExpiration2` message with one declaration per entry, all naming `sector`.
+fn extend_msg(vm: &Vm, c: &Cast, s: &SecSt, sector: u64, entries: &[(Vec<u64>, Vec<u64>, i64)]) -> Inv {
     let p = ExtendSectorExpiration2Params {
-        extensions: vec![ExpirationExtension2 {
-            deadline: s.dl,
-            partition: s.part,
-            sectors: if plain { bf(&[sector]) } else { bf(&[]) },
-            sectors_with_claims: if plain { vec![] } else { vec![SectorClaim { sector_number: sector, maintain_claims: maintain.to_vec(), drop_claims: drop.to_vec() }] },
-            new_expiration: new_exp,
-        }],
+        extensions: entries
+            .iter()
+            .map(|(maintain, drop, new_exp)| {
+                let plain = maintain.is_empty() && drop.is_empty();
+                ExpirationExtension2 {
+                    deadline: s.dl,
+                    partition: s.part,
+                    sectors: if plain { bf(&[sector]) } else { bf(&[]) },
+                    sectors_with_claims: if plain { vec![] } else { vec![SectorClaim { sector_number: sector, maintain_claims: maintain.clone(), drop_claims: drop.clone() }] },
+                    new_expiration: *new_exp,
+                }
+            })
+            .collect(),
     };
     ext(vm, c.mc.w, &id(c.mc.m), &TokenAmount::zero(), MinerMethod::ExtendSectorExpiration2 as u64, Some(&p))
 }
@@ -890,6 +913,20 @@ impl Scenario for Scn {
                     "extend (maintain + drop)".into()
                 }
             }
+            Act::ExtendTwice { first, second, .. } => {
+                let bare = |e: &(Vec<u64>, Vec<u64>, i64)| e.0.is_empty() && e.1.is_empty();
+                if bare(second) && !first.0.is_empty() {
+                    "extend twice in one message (claims maintained, then the bare sector later)".into()
+                } else if bare(second) {
+                    "extend twice in one message (claims dropped, then the bare sector later)".into()
+                } else if bare(first) {
+                    "extend twice in one message (the bare sector later, then claims maintained)".into()
+                } else if second.1.is_empty() {
+                    "extend twice in one message (claims maintained in both)".into()
+                } else {
+                    "extend twice in one message (claims maintained, then dropped)".into()
+                }
+            }
             Act::ExtendTerm { .. } => "extend-claim-terms".into(),
             Act::ExtendTermByDatacap { .. } => "extend-claim-by-datacap".into(),
             Act::RemoveClaims(v) => if v.is_empty() { "remove-expired-claims (all)".into() } else { "remove-expired-claims (listed)".into() },
@@ -975,6 +1012,29 @@ impl Scenario for Scn {
                 for t in &targets {
                     for (maintain, drop) in &splits {
                         v.push(Act::Extend { sector: **n, maintain: maintain.clone(), drop: drop.clone(), new_exp: *t });
+                    }
+                }
+                // the sector named in two declarations of one message: the claims are declared with a
+                // new expiration every claim allows, the other declaration asks for a later one
+                let backing: Vec<u64> = own.iter().map(|(i, _)| *i).filter(|i| !m.dropped.contains(i)).collect();
+                if !backing.is_empty() {
+                    let min_end = own.iter().filter(|(i, _)| backing.contains(i)).map(|(_, c)| c.term_start + c.term_max).min().unwrap();
+                    let far_t = *targets.last().unwrap();
+                    let los: Vec<i64> = [x, min_end].into_iter().filter(|t| *t >= x && *t <= min_end).collect::<BTreeSet<_>>().into_iter().collect();
+                    let his: Vec<i64> = [min_end + 1, far_t].into_iter().filter(|t| *t > min_end).collect::<BTreeSet<_>>().into_iter().collect();
+                    for hi in &his {
+                        for lo in &los {
+                            // claims maintained up to `lo`, then the bare sector up to `hi`
+                            v.push(Act::ExtendTwice { sector: **n, first: (backing.clone(), vec![], *lo), second: (vec![], vec![], *hi) });
+                        }
+                        let lo = los[0];
+                        // the same two declarations in the other order
+                        v.push(Act::ExtendTwice { sector: **n, first: (vec![], vec![], *hi), second: (backing.clone(), vec![], lo) });
+                        // the claims declared in both, same split / different split
+                        v.push(Act::ExtendTwice { sector: **n, first: (backing.clone(), vec![], lo), second: (backing.clone(), vec![], *hi) });
+                        v.push(Act::ExtendTwice { sector: **n, first: (backing.clone(), vec![], lo), second: (vec![], backing.clone(), *hi) });
+                        // everything dropped first, then the bare sector
+                        v.push(Act::ExtendTwice { sector: **n, first: (vec![], backing.clone(), lo), second: (vec![], vec![], *hi) });
                     }
                 }
             }
@@ -1116,6 +1176,25 @@ impl Scenario for Scn {
                     }
                 }
             }
+            Act::ExtendTwice { sector, first, second } => match pre.secs.get(sector) {
+                None => outcome = "rejected",
+                Some(st) => {
+                    let r = extend_msg(vm, c, st, *sector, &[first.clone(), second.clone()]);
+                    if r.ok() {
+                        for d in first.1.iter().chain(second.1.iter()) {
+                            if pre.claims.get(&(miner, *d)).map(|cl| cl.sector == *sector).unwrap_or(false) {
+                                m.dropped.insert(*d);
+                            }
+                        }
+                        m.ext_left = m.ext_left.saturating_sub(1);
+                        outcome = "accepted";
+                    } else if r.any_panicked() {
+                        outcome = "rejected (the actor panicked)";
+                    } else {
+                        outcome = "rejected";
+                    }
+                }
+            },
             Act::ExtendTerm { claim, term_max } => {
                 let _r = ext(vm, c.client, &id(REG), &TokenAmount::zero(), VrMethod::ExtendClaimTerms as u64, Some(&ExtendClaimTermsParams { terms: vec![ClaimTerm { provider: miner, claim_id: *claim, term_max: *term_max }] }));
                 let changed = vm.actor(REG).unwrap().state != pre.reg_head;
@@ -1188,9 +1267,13 @@ impl Scenario for Scn {
                     // claim id several times, and the broken relation is one between the sector and its
                     // claims (S1, S2, T4). Anything else is a violation.
                     let dup = matches!(a, Act::Extend { maintain, drop, .. } if has_dup(maintain, drop));
+                    let twice = matches!(a, Act::ExtendTwice { .. });
                     if dup && outcome == "accepted" && matches!(rel, "S1" | "S2" | "T4") && self.cfg.known_open.contains(KF_DUP) {
                         m.frozen = true;
                         known.push(Known { id: KF_DUP.into(), text: KF_DUP_TEXT.into() });
+                    } else if twice && outcome == "accepted" && matches!(rel, "S1" | "S2" | "T4") && self.cfg.known_open.contains(KF_TWO) {
+                        m.frozen = true;
+                        known.push(Known { id: KF_TWO.into(), text: KF_TWO_TEXT.into() });
                     } else if viol.is_none() {
                         viol = Some(format!("[{rel}] after {a:?} ({outcome}) at epoch {now}: {x}"));
                     }
@@ -1216,7 +1299,7 @@ impl Scenario for Scn {
             },
             "bases": self.cfg.bases,
             "budgets": {"accepted extensions": self.cfg.ext, "accepted claim-term changes": self.cfg.term, "effective removals/terminations": self.cfg.misc, "single ticks": self.cfg.ticks, "replica updates": self.cfg.onboard, "sector-boundary jump targets offered per state": self.cfg.jumps},
-            "alphabet": ["ExtendSectorExpiration2: every maintain/drop/omitted split of the sector's claims, a claim named several times, a claim of another sector; new expiration in {unchanged, each claim's term end, term end + 1, far}",
+            "alphabet": ["ExtendSectorExpiration2 with two declarations naming the same sector (claims maintained up to an allowed expiration + the bare sector to a later one, either order; the claims declared in both with the same / a different split; all dropped + the bare sector)", "ExtendSectorExpiration2: every maintain/drop/omitted split of the sector's claims, a claim named several times, a claim of another sector; new expiration in {unchanged, each claim's term end, term end + 1, far}",
                          "ExtendClaimTerms by the client (term_max + 30, term_max - 1)", "claim extension by DataCap transfer (term_max + 30, term_max - 1)", "RemoveExpiredClaims (all / each id) by a stranger", "RemoveExpiredAllocations", "TerminateSectors", "ProveReplicaUpdates3 with every non-empty subset of the open allocations",
                          "one epoch (default PoSt when the window opens + real cron)", "jump (the same, epoch by epoch) to the next boundaries per category: sector expiration -25/-24/-1/0/+1 and clean-up epoch; claim term end -1/0/+1; allocation expiration 0/+1; when every budget is spent: the last boundary before the horizon"],
             "oracle": "state relations S1-S3 and transition relations T1-T4 of the module comment, evaluated after every message and after every single epoch",
@@ -1247,9 +1330,9 @@ fn cfg(mode: Mode, thorough: bool) -> Cfg {
 pub fn scenario_mode(tier: &str, mode: Mode) -> (Scn, Bounds) {
     let th = tier_is_thorough(tier);
     let b = match (mode, th) {
-        (Mode::Update, false) => Bounds { max_depth: 4, wall_cap_s: 30.0, ..Default::default() },
+        (Mode::Update, false) => Bounds { max_depth: 4, wall_cap_s: 25.0, ..Default::default() },
         (Mode::Update, true) => Bounds { max_depth: 6, wall_cap_s: 1000.0, ..Default::default() },
-        (Mode::Commit, false) => Bounds { max_depth: 3, wall_cap_s: 15.0, ..Default::default() },
+        (Mode::Commit, false) => Bounds { max_depth: 3, wall_cap_s: 10.0, ..Default::default() },
         (Mode::Commit, true) => Bounds { max_depth: 5, wall_cap_s: 240.0, ..Default::default() },
     };
     (Scn { cfg: cfg(mode, th) }, b)
